@@ -81,13 +81,24 @@ def _unquote_impl(string, only_printable=False, unsafe=None, escape_dangling=Fal
     return res
 
 
+# NOTE: the same characters given raw must end up escaped too, else a url has
+# two spellings (and a raw one at the edge of the result would be stripped)
+def _escape_non_printable(string, only_printable):
+    if only_printable and string:
+        return C1_CONTROL_CHARS_RE.sub(quote_match, string)
+
+    return string
+
+
 def _generate_unquoted_parts(
     string, only_printable=False, unsafe=None, escape_dangling=False
 ):
     previous_match_end = 0
     for ascii_match in ASCII_RE.finditer(string):
         start, end = ascii_match.span()
-        yield string[previous_match_end:start]  # Non-ASCII
+        yield _escape_non_printable(
+            string[previous_match_end:start], only_printable
+        )  # Non-ASCII
         # The ascii_match[1] group == string[start:end].
 
         m = ascii_match.group(1)
@@ -105,7 +116,9 @@ def _generate_unquoted_parts(
         yield c
 
         previous_match_end = end
-    yield string[previous_match_end:]  # Non-ASCII tail
+    yield _escape_non_printable(
+        string[previous_match_end:], only_printable
+    )  # Non-ASCII tail
 
 
 # NOTE: here, unsafe must be a container of bytes
@@ -118,6 +131,8 @@ def unquote(
     escape_raw=None,
 ):
     if "%" not in string:
+        string = _escape_non_printable(string, only_printable)
+
         if normalize_space:
             string = string.replace(" ", "%20")
 
